@@ -38,6 +38,11 @@ def I(label, cls, xml, pfx=False):              # noqa: E743
     return (label, cls, xml, False, pfx)
 
 
+def C(label, cls, xml, pfx=False):
+    """Contested verdict (None): only the agreement of the entry points with schema.is_valid() is judged."""
+    return (label, cls, xml, None, pfx)
+
+
 # --- content models -------------------------------------------------------------------------
 
 def s_seq():
@@ -146,8 +151,17 @@ def s_content():
 <xs:element name="em" minOccurs="0"><xs:complexType/></xs:element>
 <xs:element name="an" minOccurs="0"/>
 </xs:sequence></xs:complexType></xs:element>
+<xs:element name="mf" fixed="abc"><xs:complexType mixed="true"><xs:sequence>
+ <xs:element name="b" type="xs:string" minOccurs="0"/></xs:sequence></xs:complexType></xs:element>
 ''' + TAIL
     docs = [
+        V('ok-mixed-fixed', 'fixed', '<mf>abc</mf>'),
+        V('ok-mixed-fixed-empty', 'fixed', '<mf/>'),
+        I('mixed-fixed-wrong', 'fixed', '<mf>abd</mf>'),
+        I('mixed-fixed-child', 'fixed', '<mf><b>x</b></mf>'),
+        # white space only: the character children are not the fixed value (cvc-elt 5.2.2.2.1) but the library
+        # strips the text of mixed content everywhere, so only the agreement of the entry points is judged
+        C('mixed-fixed-whitespace', 'fixed', '<mf>   </mf>'),
         V('ok-simple-content', 'simple', '<r><p cur="EUR">9.50</p></r>'),
         I('simple-content-bad-value', 'simple', '<r><p cur="EUR">nine</p></r>'),
         I('simple-content-child', 'content', '<r><p cur="EUR"><z/></p></r>'),
@@ -195,12 +209,17 @@ def s_simple():
  <xs:element name="hx" type="xs:hexBinary"/>
  <xs:element name="du" type="xs:duration"/>
  <xs:element name="fl" type="xs:double"/>
+ <xs:element name="tk" type="xs:token"/>
+ <xs:element name="nc" type="xs:NCName"/>
+ <xs:element name="st" type="xs:string"/>
+ <xs:element name="nst" type="xs:normalizedString"/>
 </xs:choice></xs:complexType></xs:element>
 ''' + TAIL
     good = [('i', '7'), ('i', ' -7\n'), ('dt', '2020-02-29'), ('dec', '9.50'), ('dec', '100'), ('s', 'abc'),
             ('p', 'AB1'), ('e', 'red'), ('e', ' blue '), ('l', '1 2 3'), ('l', ''), ('u', '12'), ('u', 'small'),
             ('ul', '1 large 3'), ('bo', 'true'), ('bo', '0'), ('hx', '0aFF'), ('du', 'P1Y2M'), ('fl', '1.5e3'),
-            ('fl', 'INF')]
+            ('fl', 'INF'), ('tk', '  AB   CD '), ('nc', ' t1 '), ('st', ' as is '), ('nst', 'a\tb '), ('bo', ' true '),
+            ('dec', '\n 9.50 \n'), ('dt', ' 2020-02-29 '), ('du', ' P1D '), ('hx', ' 0A ')]
     bad = [('i', 'x', 'lexical'), ('i', '2147483648', 'facet'), ('i', '', 'lexical'), ('i', '1.0', 'lexical'),
            ('dt', '2021-02-29', 'lexical'), ('dt', '2020-2-1', 'lexical'),
            ('dec', '100.01', 'facet'), ('dec', '-1', 'facet'), ('dec', '1.234', 'facet'), ('dec', 'abc', 'lexical'),
@@ -241,6 +260,7 @@ def s_attrs():
     docs = [
         V('ok-min', 'attribute', '<r q="1"/>'),
         V('ok-full', 'attribute', '<r q="1" o="2020-01-01" f="x" d="6" l="1 2"/>'),
+        V('ok-spaces', 'attribute', '<r q=" 1 " o=" 2020-01-01 " d=" 6" l=" 1   2 "/>'),
         I('missing-required', 'attribute', '<r/>'),
         I('undeclared', 'attribute', '<r q="1" z="1"/>'),
         I('bad-value', 'attribute', '<r q="x"/>'),
@@ -275,6 +295,8 @@ TYPES_BODY = '''<xs:complexType name="B"><xs:sequence><xs:element name="a" type=
 <xs:element name="ab" type="%(p)sA"/>
 <xs:element name="n" type="xs:decimal"/>
 <xs:element name="qn" type="xs:QName"/>
+<xs:element name="ql"><xs:complexType><xs:sequence><xs:element name="q" type="xs:QName" maxOccurs="2"/>
+ </xs:sequence></xs:complexType></xs:element>
 <xs:element name="c"><xs:complexType><xs:sequence><xs:element name="e" type="%(p)sB" maxOccurs="2"/>
  </xs:sequence></xs:complexType></xs:element>
 '''
@@ -326,6 +348,8 @@ def s_types_ns():
         V('ok-xsi-other-prefix', 'xsi:type', '<k:e xmlns:k="%s" %s xsi:type="k:D"><a>1</a><b>2</b></k:e>' % (T, XSI_DECL),
           True),
         V('ok-qname', 'qname', ro('qn', 'xmlns:p="urn:c04:p"') + 'p:x' + cl('qn'), True),
+        V('ok-qname-prefix-on-child', 'lazy-prefix', ro('ql', '') + '<q xmlns:p="urn:c04:p">p:x</q>' + cl('ql'), True),
+        I('qname-prefix-of-sibling', 'qname', ro('ql', '') + '<q xmlns:p="urn:c04:p">p:x</q><q>p:x</q>' + cl('ql'), True),
         I('qname-unmapped-prefix', 'qname', ro('qn', '') + 'zz:x' + cl('qn'), True),
         I('qname-bad-lexical', 'qname', ro('qn', '') + 't:1x' + cl('qn'), True),
     ]
@@ -473,6 +497,108 @@ def s_assert():
     return xsd, docs
 
 
+# --- strict wildcards over a loaded namespace ------------------------------------------------
+
+def s_anyattr():
+    xsd = head(T, True) + '''<xs:attribute name="known" type="xs:int"/>
+<xs:element name="known" type="xs:int"/>
+<xs:element name="root"><xs:complexType><xs:sequence>
+ <xs:any namespace="##targetNamespace" minOccurs="0"/>
+</xs:sequence>
+<xs:attribute name="id" type="xs:int"/>
+<xs:anyAttribute namespace="##targetNamespace"/>
+</xs:complexType></xs:element>
+''' + TAIL
+    p = 'xmlns:t="%s" xmlns:o="%s"' % (T, O)
+    docs = [
+        V('ok-known-attribute', 'wildcard-strict', '<t:root %s id="1" t:known="7"/>' % p),
+        I('unknown-attribute', 'wildcard-strict', '<t:root %s id="1" t:unknown="7"/>' % p),
+        I('known-attribute-bad-value', 'wildcard-strict', '<t:root %s t:known="x"/>' % p),
+        I('attribute-other-namespace', 'wildcard-strict', '<t:root %s o:k="1"/>' % p),
+        V('ok-known-element', 'wildcard-strict', '<t:root %s><t:known>1</t:known></t:root>' % p),
+        I('unknown-element', 'wildcard-strict', '<t:root %s><t:zz/></t:root>' % p),
+        I('known-element-bad-value', 'wildcard-strict', '<t:root %s><t:known>x</t:known></t:root>' % p),
+        I('unknown-attribute-and-element', 'wildcard-strict', '<t:root %s t:unknown="7"><t:zz/></t:root>' % p),
+    ]
+    return xsd, docs
+
+
+# --- XSD 1.1 inheritable attributes ------------------------------------------------------------
+
+def s_inherit():
+    xsd = head() + '''<xs:element name="r"><xs:complexType><xs:sequence>
+ <xs:element name="c" type="xs:int" minOccurs="0"/>
+ <xs:element name="g" minOccurs="0"><xs:complexType><xs:sequence>
+  <xs:element name="a" type="xs:int"/><xs:element name="b" type="xs:int"/></xs:sequence>
+  <xs:attribute name="lang" type="xs:string" inheritable="true"/></xs:complexType></xs:element>
+ <xs:element name="i" minOccurs="0" maxOccurs="unbounded"><xs:complexType>
+  <xs:attribute name="id" type="xs:int"/><xs:attribute name="x" type="xs:ID"/>
+  <xs:attribute name="ref" type="xs:IDREF"/></xs:complexType></xs:element>
+</xs:sequence>
+<xs:attribute name="lang" type="xs:string" inheritable="true"/>
+</xs:complexType>
+<xs:key name="k"><xs:selector xpath="i"/><xs:field xpath="@id"/></xs:key>
+</xs:element>
+''' + TAIL
+    docs = []
+    for tag, lang in (('lang', ' lang="en"'), ('nolang', '')):
+        docs += [
+            V('ok-%s' % tag, 'content', '<r%s><c>1</c><g><a>1</a><b>2</b></g><i id="1" x="a"/><i id="2" ref="a"/></r>' % lang),
+            I('bad-value-%s' % tag, 'simple', '<r%s><c>x</c></r>' % lang),
+            I('missing-child-%s' % tag, 'content', '<r%s><g><a>1</a></g></r>' % lang),
+            I('duplicate-key-%s' % tag, 'identity', '<r%s><i id="1"/><i id="1"/></r>' % lang),
+            I('dangling-idref-%s' % tag, 'idref', '<r%s><i id="1" ref="zz"/></r>' % lang),
+            I('duplicate-id-%s' % tag, 'id', '<r%s><i id="1" x="a"/><i id="2" x="a"/></r>' % lang),
+            I('bad-attribute-%s' % tag, 'attribute', '<r%s><i id="one"/></r>' % lang),
+            V('ok-inner-%s' % tag, 'content', '<r><g%s><a>1</a><b>2</b></g></r>' % lang),
+            I('inner-bad-value-%s' % tag, 'simple', '<r><g%s><a>x</a><b>2</b></g></r>' % lang),
+            I('inner-missing-child-%s' % tag, 'content', '<r><g%s><b>2</b></g></r>' % lang),
+            I('after-inner-bad-value-%s' % tag, 'attribute', '<r><g%s><a>1</a><b>2</b></g><i id="one"/></r>' % lang),
+            I('after-inner-dangling-idref-%s' % tag, 'idref', '<r><g%s><a>1</a><b>2</b></g><i ref="zz"/></r>' % lang),
+        ]
+    return xsd, docs
+
+
+# --- a document root in an imported namespace, with and without a location hint for it ----------
+
+A, B = 'urn:c04:a', 'urn:c04:b'
+IMPORTED_B = '''<xs:schema xmlns:xs="%s" targetNamespace="%s" elementFormDefault="qualified">
+<xs:element name="item"><xs:complexType><xs:sequence><xs:element name="qty" type="xs:positiveInteger"/></xs:sequence>
+ <xs:attribute name="code" type="xs:NCName" use="required"/></xs:complexType></xs:element>
+</xs:schema>
+''' % (XS, B)
+IMPORTED_OLD_B = '''<xs:schema xmlns:xs="%s" targetNamespace="%s" elementFormDefault="qualified">
+<xs:element name="item"><xs:complexType><xs:sequence><xs:element name="qty" type="xs:string"/></xs:sequence>
+ <xs:attribute name="code" type="xs:string"/></xs:complexType></xs:element>
+</xs:schema>
+''' % (XS, B)
+
+
+def s_imported():
+    """The schema (namespace A) imports namespace B from b.xsd; old_b.xsd is a looser schema for B that some
+    documents name in an xsi:schemaLocation hint.  @DIR@ is replaced by the fixture directory."""
+    xsd = ('''<xs:schema xmlns:xs="%s" targetNamespace="%s" xmlns:b="%s" elementFormDefault="qualified">
+<xs:import namespace="%s" schemaLocation="b.xsd"/>
+<xs:element name="box"><xs:complexType><xs:sequence><xs:element ref="b:item" maxOccurs="unbounded"/></xs:sequence>
+ </xs:complexType></xs:element>
+''' % (XS, A, B, B)) + TAIL
+    ns = 'xmlns:a="%s" xmlns:b="%s" %s' % (A, B, XSI_DECL)
+    hint = ' xsi:schemaLocation="%s file://@DIR@/old_b.xsd"' % B
+    rel = ' xsi:schemaLocation="%s old_b.xsd"' % B
+    docs = []
+    for tag, h in (('', ''), ('-hinted', hint), ('-hinted-relative', rel)):
+        docs += [
+            V('ok-imported-root' + tag, 'imported', '<b:item %s%s code="x1"><b:qty>3</b:qty></b:item>' % (ns, h)),
+            I('imported-root-bad' + tag, 'imported', '<b:item %s%s><b:qty>three</b:qty></b:item>' % (ns, h)),
+            I('imported-root-bad-value' + tag, 'imported', '<b:item %s%s code="x1"><b:qty>0</b:qty></b:item>' % (ns, h)),
+            V('ok-main-root' + tag, 'imported',
+              '<a:box %s%s><b:item code="x1"><b:qty>3</b:qty></b:item></a:box>' % (ns, h)),
+            I('main-root-bad' + tag, 'imported',
+              '<a:box %s%s><b:item code="1 x"><b:qty>3</b:qty></b:item></a:box>' % (ns, h)),
+        ]
+    return xsd, docs, {'b.xsd': IMPORTED_B, 'old_b.xsd': IMPORTED_OLD_B}
+
+
 # --- documents with exactly k errors --------------------------------------------------------
 
 K_XSD = head() + '''<xs:element name="r"><xs:complexType><xs:sequence>
@@ -497,16 +623,19 @@ _TABLE = (
     ('content', BOTH, s_content), ('simple', BOTH, s_simple), ('attrs', BOTH, s_attrs),
     ('typesns', BOTH, s_types_ns), ('typeslocal', BOTH, s_types_local), ('subst', BOTH, s_subst),
     ('identity', BOTH, s_identity), ('id', BOTH, s_id), ('assert', ('1.1',), s_assert), ('k', BOTH, s_k),
+    ('anyattr', BOTH, s_anyattr), ('inherit', ('1.1',), s_inherit), ('imported', BOTH, s_imported),
 )
 
 
 def catalogue():
     out = []
     for name, versions, fn in _TABLE:
-        xsd, docs = fn()
+        made = fn()
+        xsd, docs = made[:2]
         labels = [d[0] for d in docs]
         assert len(set(labels)) == len(labels), name
-        out.append({'schema': name, 'versions': versions, 'xsd': xsd, 'docs': docs})
+        out.append({'schema': name, 'versions': versions, 'xsd': xsd, 'docs': docs,
+                    'files': made[2] if len(made) > 2 else {}})
     return out
 
 
